@@ -15,6 +15,7 @@ LOSS_SCRIPTS = {
     "improving": [9.0, 8.0, 7.0, 6.0, 5.0, 4.0, 3.0, 2.0, 1.0, 0.5],
     "never": [11.0, 12.0, 13.0, 14.0, 15.0, 16.0, 17.0, 18.0, 19.0, 20.0],
     "mixed": [8.0, 9.0, 6.0, 7.0, 6.0, 3.0, 4.0, 2.0, 2.0, 1.0],
+    "to_zero": [4.0, 0.0, 3.0, 0.0, 1.0, 2.0, 0.0, 5.0, 1.0, 0.0],
 }
 
 
@@ -165,7 +166,7 @@ def run_protocol(cfg, prefix, mode="sync", horizon=6000):
                         if fault and fault["session"] == si and fault["batch"] == bi and fault["where"] == "after_get":
                             obs["samplers"][-1] = ("aborted", obs["samplers"][-1])
                             raise InjectedFault("after_get")
-                        loss = L0 if batch == 0 else script[(batch - 1) % len(script)]
+                        loss = cfg.get("l0", L0) if batch == 0 else script[(batch - 1) % len(script)]
                         obs["losses"].append(loss)
                         sched.update(batch, np.array([[float(batch)]]), np.array([loss]), None)
                         batch += 1
